@@ -148,7 +148,15 @@ theorem resolveConflict_sim (r₁ : Run σ₁) (r₂ : Run σ₂) (h : RunSim S 
       | stop => exact ⟨h, rfl⟩
       | ignore => exact ⟨h, rfl⟩
       | override => simp only [resolveConflict]; exact key dst true rest
-      | custom p => simp only [resolveConflict]; exact key p false rest
+      | custom p =>
+        simp only [resolveConflict]
+        rw [sim.view r₁.st r₂.st dir p h.1]
+        cases hc : contained (R₂.view r₂.st) dir p with
+        | error e => cases e <;> exact ⟨h, rfl⟩
+        | ok b =>
+          cases b with
+          | false => exact ⟨h, rfl⟩
+          | true => exact key p false rest
 
 theorem secondPass_sim (strategy : Strategy) :
     ∀ (bl : List (APath × PurePath × PurePath)) (r₁ : Run σ₁) (r₂ : Run σ₂) (as : List Answer), RunSim S r₁ r₂ →
